@@ -1007,7 +1007,10 @@ func isPureFn(fn *ssa.Function, depth int) bool {
 					ok = false
 					continue
 				}
-				if _, isB := x.Call.Value.(*ssa.Builtin); isB {
+				if b, isB := x.Call.Value.(*ssa.Builtin); isB {
+					if b.Name() == "copy" {
+						ok = false
+					}
 					continue
 				}
 				sc := x.Call.StaticCallee()
@@ -1053,7 +1056,10 @@ func (o *Origin) inlinable(fn *ssa.Function) bool {
 				if x.Call.IsInvoke() {
 					return false
 				}
-				if _, isB := x.Call.Value.(*ssa.Builtin); isB {
+				if b, isB := x.Call.Value.(*ssa.Builtin); isB {
+					if b.Name() == "copy" {
+						return false // fills a buffer in place: the result is not a term over the arguments
+					}
 					continue
 				}
 				sc := x.Call.StaticCallee()
